@@ -202,3 +202,16 @@ def check_case(case) -> Outcome:
         if f.get("pool"):
             out.label(f"pool:{f['pool']}")
     return out
+
+
+def extra_run(tier, seed_value, findings):
+    """Thorough tier: coverage-guided fuzzing (atheris) of the serialisation core
+    (json_serialize_values_orders / json_deserialize_values_orders) with a round-trip oracle."""
+    if tier != "thorough":
+        return {"evaluations": 0, "coverage": {"coverage_guided_part": {"runs": 0, "note": "thorough tier only"}}}
+    from fuzz import driver
+
+    fuzz = driver.run("c06", seed_value, runs=400000, jobs=4)
+    violations = [(sig, msg, case) for sig, msg, case in fuzz["violations"] if not findings.match_open(PID, sig)]
+    return {"evaluations": fuzz["evaluations"], "violations": violations, "classes": {"atheris_runs": fuzz["evaluations"]},
+            "coverage": {"coverage_guided_part": {"runs": fuzz["evaluations"], "note": fuzz["note"]}}}
